@@ -87,6 +87,8 @@ pub struct GenCfg {
     pub big_offsets: bool,
     /// export every function (so call sequences reach everything)
     pub export_all_funcs: bool,
+    /// allow two imports with the same (module, field)
+    pub dup_import_names: bool,
 }
 
 impl GenCfg {
@@ -105,6 +107,7 @@ impl GenCfg {
             supported: None,
             big_offsets: true,
             export_all_funcs: false,
+            dup_import_names: true,
         }
     }
     pub fn exec() -> GenCfg {
@@ -122,6 +125,7 @@ impl GenCfg {
             supported: Some(crate::interp::supports),
             big_offsets: false,
             export_all_funcs: true,
+            dup_import_names: false,
         }
     }
 }
@@ -1554,7 +1558,8 @@ fn gen_table(ch: &mut Ch, feats: u32, imported: bool, exec: bool) -> TableInfo {
     } else {
         VT::FuncRef
     };
-    let t64 = feats & feat::MEMORY64 != 0 && !exec && ch.chance(1, 5);
+    let t64 = feats & feat::MEMORY64 != 0 && ch.chance(1, 5);
+    let _ = exec;
     let initial = ch.below(9) as u64;
     let max = if ch.bool() {
         Some(initial + ch.below(6) as u64)
@@ -1570,10 +1575,13 @@ fn gen_table(ch: &mut Ch, feats: u32, imported: bool, exec: bool) -> TableInfo {
     }
 }
 
-fn gen_mem(ch: &mut Ch, feats: u32, imported: bool) -> MemInfo {
+fn gen_mem(ch: &mut Ch, feats: u32, imported: bool, exec: bool) -> MemInfo {
     let m64 = feats & feat::MEMORY64 != 0 && ch.chance(1, 3);
     let shared = feats & feat::THREADS != 0 && ch.chance(1, 3);
-    let initial = ch.below(3) as u64;
+    let mut initial = ch.below(3) as u64;
+    if exec && initial == 0 && ch.chance(7, 8) {
+        initial = 1;
+    }
     let max = if shared || ch.bool() {
         Some(initial + ch.below(3) as u64)
     } else {
@@ -1688,7 +1696,7 @@ pub fn generate(data: &[u8], cfg: &GenCfg) -> Generated {
         let mut module = if ch.bool() { "env".to_string() } else { "host".to_string() };
         let mut name = gen_name(ch, "imp", i);
         // duplicate (module, field) pairs are legal and do occur
-        if !imports.is_empty() && ch.chance(1, 6) {
+        if cfg.dup_import_names && !imports.is_empty() && ch.chance(1, 6) {
             let k = ch.below(imports.len());
             module = imports[k].0.clone();
             name = imports[k].1.clone();
@@ -1712,7 +1720,7 @@ pub fn generate(data: &[u8], cfg: &GenCfg) -> Generated {
                 if !env.mems.is_empty() && !env.has(feat::MULTI_MEMORY) {
                     continue;
                 }
-                let m = gen_mem(ch, feats, true);
+                let m = gen_mem(ch, feats, true, cfg.exec);
                 env.mems.push(m.clone());
                 imports.push((module, name, ImportG::Mem(m)));
             }
@@ -1756,7 +1764,7 @@ pub fn generate(data: &[u8], cfg: &GenCfg) -> Generated {
         0
     };
     for _ in 0..n_local_mems {
-        env.mems.push(gen_mem(ch, feats, false));
+        env.mems.push(gen_mem(ch, feats, false, cfg.exec));
     }
     let mut ref_funcs: Vec<u32> = Vec::new();
     let mut body_refs: Vec<u32> = Vec::new();
